@@ -73,24 +73,46 @@ class FsSeam(object):
 
 class MtimeClock(object):
     """Simulated clock the editor's saves are stamped with.  Steps may be negative (checkout of an older file,
-    clock correction); a file never gets a stamp it already had (a cache validated by modification time cannot
-    be asked to notice that, and the property's domain is edits that change the modification time)."""
+    clock correction), and a file may return to a stamp it had long ago.  What is never generated is a stamp the
+    file had at any moment since the start of the request before the last one started: a cache validated by
+    modification time cannot notice a change that brings the time back to the value it saw last (and what it saw
+    last may date from before an edit made in the middle of the last request), and the property's domain is edits
+    that change the modification time."""
     BASE_NS = 1700000000 * 10 ** 9
 
     def __init__(self):
         self.now_ns = self.BASE_NS
-        self.used = {}
+        self.used = {}       # path -> every stamp the file ever had
+        self.recent = {}     # path -> stamps the file had since the start of the last request
+        self.current = {}
+        self.gen0 = {}       # path -> stamps since the start of the last request
         self.lo = self.now_ns
         self.hi = self.now_ns
+        self.reused = 0
 
-    def stamp(self, path, dt_ms):
-        self.now_ns += int(dt_ms * 10 ** 6)
-        if self.now_ns < 10 ** 9:
-            self.now_ns = 10 ** 9
-        used = self.used.setdefault(path, set())
-        while self.now_ns in used:
-            self.now_ns += 10 ** 6
-        used.add(self.now_ns)
-        self.lo = min(self.lo, self.now_ns)
-        self.hi = max(self.hi, self.now_ns)
-        return self.now_ns
+    def request_starts(self):
+        gen0 = self.gen0
+        self.gen0 = {p: {s} for p, s in self.current.items()}
+        self.recent = {p: set(v) | gen0.get(p, set()) for p, v in self.gen0.items()}
+
+    def stamp(self, path, dt_ms, reuse=None):
+        """reuse: a number in [0,1) selecting one of the file's older stamps instead of a clock step."""
+        recent = self.recent.setdefault(path, set())
+        old = sorted(self.used.get(path, set()) - recent)
+        if reuse is not None and old:
+            ns = old[int(reuse * len(old))]
+            self.reused += 1
+        else:
+            self.now_ns += int(dt_ms * 10 ** 6)
+            if self.now_ns < 10 ** 9:
+                self.now_ns = 10 ** 9
+            while self.now_ns in recent:
+                self.now_ns += 10 ** 6
+            ns = self.now_ns
+        self.used.setdefault(path, set()).add(ns)
+        recent.add(ns)
+        self.gen0.setdefault(path, set()).add(ns)
+        self.current[path] = ns
+        self.lo = min(self.lo, ns)
+        self.hi = max(self.hi, ns)
+        return ns
